@@ -50,10 +50,10 @@ PROP = {
             "(5 kinds x stage x call 1..3) on chains of <= 2 stages with <= 2 messages (1174 cases) + every placement of <= 2 faults among "
             "{px x invocation 1..2 x position, 5 kinds x stage x call 1} on the multi-output chains 1x2, 1x3, 1x2/2, 1/2x2 (650 cases) "
             "+ 200 random longer scripts (a third of the chains with multi-output stages); thorough adds every "
-            "placement of <= 3 faults on the 3-stage chain (calls 1..3, 15226 cases) and 5000 random. Oracle: the recorded event trace must be a run "
+            "placement of <= 3 faults on the 3-stage chain (calls 1..3, 15226 cases), larger multi-output universes (1x2/2x2, 1/2x2/3, 1x3/2x2) and 5000 random. Oracle: the recorded event trace must be a run "
             "of the Lean model Pipeline.act ending in a terminal state (M line) and must satisfy the C01 monitor (P line): Ack only after the "
-            "output Publish of that invocation returned nil, sink lineages were published at the source, every successfully published lineage "
-            "is at the sink at quiescence (liveness bound 30 s), every Nacked copy was followed by a later delivery. Non-trivial = a case with an "
+            "real Publish returned nil for EVERY output of that invocation, sink lineages derive from a published source lineage, every derived "
+            "lineage of every successfully published source lineage is at the sink at quiescence (liveness bound 30 s), every Nacked copy was followed by a later delivery. Non-trivial = a case with an "
             "injected fault and a redelivery.",
     "trusted_base": [
         "Lean 4.33.0 kernel; axioms per theorem under theorem_axioms",
